@@ -193,7 +193,7 @@ fn gen_literal_text(t: &mut Tape) -> String {
             // deep nesting with a syntax error inside: a failing parse must not re-read the nested
             // text once per grammar alternative (time exponential in the depth)
             let d = 8 + t.below(70);
-            let (open, close) = *t.pick(&[("(", ")"), ("[", "]"), ("f(", ")"), ("(1, ", ")"), ("[(", ")]")]);
+            let (open, close) = *t.pick(&[("(", ")"), ("[", "]"), ("f(", ")"), ("(1, ", ")"), ("[(", ")]"), ("f\"a{", "}\""), ("g(f\"{", "}\")"), ("f'{[", "]}'")]);
             if t.below(3) == 0 {
                 // the same in a type position
                 let (topen, tclose) = *t.pick(&[("(", ")"), ("Sequence<", ">"), ("(int, ", ")"), ("((", ")->(int))")]);
